@@ -35,8 +35,10 @@ ASSUMPTIONS = [
     'Create is issued only for an absent reservation, Update/Delete only for a present one; an '
     'Update always names its partition (as reservation.json#/verbs/update and the CLI do) and '
     'never carries an explicitly empty traits list',
-    'partitions are not reconfigured while reservations exist (shrinking a partition below '
-    'what is promised is outside the statement)',
+    'a partition record may be rewritten at any moment (smaller capacity, smaller / new / no '
+    'trait limits) through the real Partition.update; oversubscription is a legal state; the '
+    'statement is then judged request by request (C19.inv: the accepted reservation\'s own '
+    'partition and the limited traits it carries are within bounds)',
     'beyond C19 (extensions.cellsync, DRIFT class): cellsync.sync_allocations runs against the same '
     'directory and one harness/zkfake per cell with context.GLOBAL.cell / zk.conn patched; the order '
     'of the /allocations list (the directory search order) is left open; requests may carry '
@@ -47,11 +49,13 @@ ASSUMPTIONS = [
 
 
 def _mc_jobs(ctx):
-    good = ['star2', 'three0'] if ctx.quick else ['full2', 'star2', 'three0', 'three1', 'star3']
+    good = ['star2', 'three0', 'reconf'] if ctx.quick else \
+        ['full2', 'star2', 'three0', 'reconf', 'three1', 'star3']
     jobs = [('repaired/' + scn, scn, (), ['InvReserve', 'InvNoCrash']) for scn in good]
     jobs.append(('defect:trait_uses_cpu', 'defect', ('trait_uses_cpu',), ['InvNoCrash']))
     jobs.append(('defect:update_checks_request', 'defect', ('update_checks_request',),
                  ['InvReserve']))
+    jobs.append(('defect:clamp_free', 'reconf', ('clamp_free',), ['InvReserve']))
     return jobs
 
 
@@ -65,7 +69,7 @@ def _mc_one(ctx, job):
                   workers=workers, heap='4g', timeout=150 if ctx.quick else 600)
 
 
-GEN_SOURCES = [('star3', 0), ('three1', 0), ('three1', 1), ('full2', 0)]
+GEN_SOURCES = [('star3', 0), ('three1', 0), ('three1', 1), ('full2', 0), ('reconf', 0)]
 
 
 # ---- beyond C19: reservations -> /allocations (CellSync.tla) -------------
@@ -140,18 +144,19 @@ def _model_side(ctx):
         ctx.add_mc(name, res, need_actions=('Create', 'Update', 'Delete') if res['coverage'] else ())
         labels = [(a, tlc.tlaval.split_args(b)) for a, b in res['cex'] if a not in ('Initial', 'Next')]
         table = rc.SCENARIOS[scn]['tables'][0]
+        hist_of = lambda ls, scn=scn: rc.from_labels(ls, scn)
         if defects:
             if not res['violated']:
                 raise tlc.MachineryError('the model with %s no longer violates %s' % (defects, invs))
             ctx.log('model with Defects=%s violates %s after %d requests; replayed on the code'
                     % (list(defects), res['violated'], len(labels)))
-            items.append(('cex:' + defects[0], 'cex', table, rc.from_labels(labels)))
+            items.append(('cex:' + defects[0], 'cex', table, hist_of(labels)))
         elif res['violated']:
             # A violation of the SPECIFICATION.  It only becomes a violation of
             # the code if the replay reproduces it.
             ctx.log('REPAIRED model violates %s; counterexample is replayed on the code'
                     % res['violated'])
-            items.append(('cex:model', 'cex', table, rc.from_labels(labels)))
+            items.append(('cex:model', 'cex', table, hist_of(labels)))
         elif res['timed_out']:
             ctx.log('MC %s timed out: partial' % name)
     for (scn, ti), (behaviours, cmd) in zip(GEN_SOURCES, sim_res):
@@ -160,7 +165,7 @@ def _model_side(ctx):
         for b in behaviours:
             # reservation requests as TLC generated them, interleaved with cellsync runs
             items.append(('tlc:%s' % scn, 'tlc', rc.SCENARIOS[scn]['tables'][ti],
-                          rc.weave_sync(wrng, rc.from_labels(b), _density(ctx))))
+                          rc.weave_sync(wrng, rc.from_labels(b, scn), _density(ctx))))
     return items
 
 
@@ -174,6 +179,9 @@ def _random_side(ctx):
     for _ in range(n_rnd // 2):
         table, hist = rc.gen_traits(rng, rng.choice([4, 6, 8]))
         items.append(('rnd', 'rnd-traits', table, rc.weave_sync(rng, hist, _density(ctx))))
+    for _ in range(n_rnd // 4):
+        table, hist = rc.gen_oversub(rng, rng.choice([4, 6, 9]))
+        items.append(('rnd', 'rnd-oversub', table, rc.weave_sync(rng, hist, 0.3 * _density(ctx))))
     return items
 
 
@@ -194,7 +202,8 @@ def _validate_and_judge(ctx, traces, full_run=False):
     if full_run:
         # vacuity control on the generated batch as a whole
         seen = collections.Counter(f for v in verdicts for f in v['ex'])
-        for flag in ('C19', 'trait', 'replace', 'accept', 'reject',
+        for flag in ('C19', 'trait', 'replace', 'accept', 'reject', 'reconf.over', 'oversub',
+                     'oversub.zero',
                      'ext.sync', 'ext.sync.noop', 'ext.sync.updates', 'ext.sync.removes', 'ext.assign'):
             if not seen[flag]:
                 raise tlc.MachineryError('vacuity: no generated request exercised %r' % flag)
@@ -208,6 +217,12 @@ def _show(ev, ident, r):
         return '%s(%s/%s)' % (ev, ident[0], ident[1])
     if 'pattern' in r:
         return '%s(%s/%s %s priority=%s)' % (ev, ident[0], ident[1], r['pattern'], r.get('priority'))
+    if 'cap' in r:
+        from ..reserve_driver import spell
+        q = lambda x: '/'.join(spell(x[k]) for k in ('cpu', 'memory', 'disk'))
+        return 'Reconf(%s/%s cap=%s limits=%s)' % (
+            ident[1], r['part'], q(r['cap']),
+            ','.join('%s:%s' % (t, q(l)) for t, l in sorted(r['limits'].items())) or '-')
     from ..reserve_driver import spell
     return '%s(%s/%s part=%s traits=%s cpu=%s memory=%s disk=%s)' % (
         ev, ident[0], ident[1], r['part'], ','.join(r['traits']) if r['tg'] else '<none given>',
@@ -232,7 +247,7 @@ def judge(ctx, traces, verdicts):
         for f in fails:
             if f.startswith('ext.'):
                 ext_failed[f] += 1
-        if line['ev'] in ('Sync', 'Assign', 'Unassign'):
+        if line['ev'] in ('Sync', 'Assign', 'Unassign', 'Reconf'):
             if fails - {f for f in fails if f.startswith('ext.')}:
                 ctx.drift += 1
             continue            # not a reservation request: no C19 clause applies
